@@ -6,7 +6,7 @@ from vlib import cbool, clist
 
 ID = "C09"
 PROPERTIES_V = ["theories/Properties/C09.v"]
-MAKE_TARGETS = ["theories/Properties/C09.vo", "theories/Model/C09Cases.vo", "theories/Model/C20Cases.vo", "theories/Proofs/GenAgreeVerifyClaims.vo"]
+MAKE_TARGETS = ["theories/Properties/C09.vo", "theories/Model/C09Cases.vo", "theories/Model/C20Cases.vo", "theories/Proofs/GenAgreeVerifyClaims.vo", "theories/Proofs/GenAgreeClaimsGuard.vo"]
 HARNESS = "c09"
 CASES_IMPORTS = ("From Coq Require Import NArith List Uint63.\n"
                  "From Verif Require Import Base.Bytes Model.TreeStore Model.GlobalIndex Model.Commitment Model.ClaimProofs Model.C09Cases.")
